@@ -192,6 +192,12 @@ static void gen_C02(const std::string &tier, uint64_t seed, long idx, Scn &s) {
     case 0: { // counter carries through the real pipeline
       int nff = (r % 64 == 0 && tier != "quick") ? 2 : 1;
       s.b["seedstr"] = seed_with_ff(g, nff);
+      if (r % 32 == 8) {
+        // seeds found off-line (tools/ffseed.c): SHA-1 ends IV_0[13..16) resp. IV_0[12..16) in 0xFF -> carry across 3 / 4 bytes
+        static const char *pre[] = {"AAcipddaaaaa", "AAnfclbkaaaa", "CAdgckofjhaa"};
+        const char *p = pre[(r / 32) % 3];
+        s.b["seedstr"] = Bytes(p, p + 12);
+      }
       s.i["cm"] = 2;
       int T = 1 + (int)g.below(3);
       s.i["T"] = T;
@@ -253,6 +259,8 @@ static Verdict run_C02(const Scn &s) {
     Bytes ivs = ref_iv_chain(e.seedstr, 1);
     if (ivs[15] == 0xFF) g_stats.add("probe.ctr_carry_iv", 1);
     if (ivs[15] == 0xFF && ivs[14] == 0xFF) g_stats.add("probe.ctr_carry_iv2", 1);
+    if (ivs[15] == 0xFF && ivs[14] == 0xFF && ivs[13] == 0xFF) g_stats.add("probe.ctr_carry_iv3", 1);
+    if (ivs[15] == 0xFF && ivs[14] == 0xFF && ivs[13] == 0xFF && ivs[12] == 0xFF) g_stats.add("probe.ctr_carry_iv4", 1);
   }
   return v;
 }
@@ -606,7 +614,7 @@ static void gen_C18(const std::string &tier, uint64_t seed, long idx, Scn &s) {
   s.prop = "C18"; s.tier = tier; s.seed = seed; s.index = idx;
   Rng g(Rng::mix(seed, 0xC18, (uint64_t)idx));
   fill_base(g, s, 4);
-  int T = (int)g.range(2, is_prod() ? 2 : 6);
+  int T = is_prod() ? 2 : (g.chance(0.6) ? (int)g.range(2, 6) : (int)g.range(7, 16));   // every thread count: the IV table has one slot per worker
   s.i["T"] = T;
   s.i["cm"] = 1 + (long)g.below(4);
   long ch = (long)CHB();
